@@ -15,6 +15,14 @@ import zarr
 from zarr.storage import LocalStore
 
 
+def _resolve_qualname(module: Any, qualname: str) -> Any:
+    """Look up a (possibly nested, e.g. ``"Outer.Inner"``) class by its qualified name."""
+    obj = module
+    for part in qualname.split("."):
+        obj = getattr(obj, part)
+    return obj
+
+
 # Base class for automatic serialization of classes
 class AutoSerialize:
     """
@@ -550,7 +558,7 @@ class AutoSerialize:
         module_name = cast(str, meta["class_module"])
         class_name = cast(str, meta["class_name"])
         module = __import__(module_name, fromlist=[class_name])
-        cls_obj = getattr(module, class_name)
+        cls_obj = _resolve_qualname(module, class_name)
         obj = cls_obj.__new__(cls_obj)  # Avoid __init__ side effects
 
         # If attrs package is used, only allow whitelisted attribute names
@@ -720,7 +728,7 @@ class AutoSerialize:
                 submod_name = cast(str, m["class_module"])
                 subcls_name = cast(str, m["class_name"])
                 submod = __import__(submod_name, fromlist=[subcls_name])
-                subcls = getattr(submod, subcls_name)
+                subcls = _resolve_qualname(submod, subcls_name)
                 if subcls in skip_types:
                     continue
                 val = subcls._recursive_load(subgrp, skip_names, skip_types)
@@ -942,7 +950,7 @@ class AutoSerialize:
                                 cast(str, meta["class_module"]),
                                 fromlist=[cast(str, meta["class_name"])],
                             )
-                            subcls = getattr(submod, cast(str, meta["class_name"]))
+                            subcls = _resolve_qualname(submod, cast(str, meta["class_name"]))
                             items.append(subcls._recursive_load(subgroup))
                         # Restore nested torch modules
                         elif subgroup.attrs.get("_torch_whole_module"):
@@ -1067,7 +1075,7 @@ class AutoSerialize:
                             cast(str, meta["class_module"]),
                             fromlist=[cast(str, meta["class_name"])],
                         )
-                        subcls = getattr(submod, cast(str, meta["class_name"]))
+                        subcls = _resolve_qualname(submod, cast(str, meta["class_name"]))
                         items.append(subcls._recursive_load(subgroup))
                     # Restore nested torch modules
                     elif subgroup.attrs.get("_torch_whole_module"):
@@ -1164,7 +1172,7 @@ class AutoSerialize:
                     submod = __import__(
                         cast(str, meta["class_module"]), fromlist=[cast(str, meta["class_name"])]
                     )
-                    subcls = getattr(submod, cast(str, meta["class_name"]))
+                    subcls = _resolve_qualname(submod, cast(str, meta["class_name"]))
                     result[key] = subcls._recursive_load(subgroup)
                 elif subgroup.attrs.get("_torch_whole_module"):
                     module_arr = cast(zarr.Array, subgroup["module"])
@@ -1443,7 +1451,7 @@ def load(
 
     # Dynamically import target class, then reconstruct from Zarr
     mod = __import__(cast(str, meta["class_module"]), fromlist=[cast(str, meta["class_name"])])
-    cls = getattr(mod, cast(str, meta["class_name"]))
+    cls = _resolve_qualname(mod, cast(str, meta["class_name"]))
     return cls._recursive_load(root, skip_names=skip_names, skip_types=skip_types)
 
 
